@@ -19,6 +19,10 @@ RULE = ("search: for every problem of each plug-in's family (all clue layouts on
         "specification rules_<p>.  A case is one problem instance; it is non-trivial when distinct.  "
         "Tier 2: per instance the captured program is emitted as a Coq term and the kernel checks "
         "sat_abs(program, answer) = rules_<p>(problem, answer) for every candidate answer (vm_compute).  "
+        "Big-board search (plug-in generator `big`): long thin boards (1xN / 2xN / Nx1, N in 19..25), multi-digit clue values "
+        "and 5x5 / 4x6 room boards, too large for the candidate enumeration: every grid admitted by the really posted "
+        "program (z3, capped) is checked against rules_<p>, and grids constructed by the generator (checked against "
+        "rules_<p>) must be admitted.  "
         "Tier 1 tie (P), for every plug-in with a TIER1 attribute (sudoku, norinori, putteria, star_battle, aquarium, creek, akari, "
         "building, doppelblock): the program captured from the real solve_<p> (declarations, answer keys, constraints as a "
         "multiset) = the program of the Coq model solve_<p>_model, on every problem of tier1_problems (all tiny boards, "
@@ -201,7 +205,10 @@ def _work(args):
         p = _PLUG[name]
         t0 = time.time()
         try:
-            r = L.search_case(p, pb, _RUNNER, maxans)
+            if isinstance(pb, dict) and pb.get("_big"):
+                r = L.big_case(p, pb, _RUNNER)
+            else:
+                r = L.search_case(p, pb, _RUNNER, maxans)
         except Exception as ex:  # noqa
             import traceback
             r = {"status": "harness", "why": traceback.format_exc()[-800:]}
@@ -235,6 +242,14 @@ def search(ctx):
         ctx.count("family:" + p.NAME, len(fam))
         for i, pb in enumerate(fam):
             items.append((p.NAME, pb, i % 7 == 0))
+        if hasattr(p, "big"):
+            rngb = random.Random("%s/%s/big" % (ctx.seed, p.NAME))
+            bigs = list(p.big(ctx.tier, rngb))
+            ctx.count("bigfamily:" + p.NAME, len(bigs))
+            for pb in bigs:
+                pb = dict(pb)
+                pb["_big"] = True
+                items.append((p.NAME, pb, False))
     random.Random(ctx.seed).shuffle(items)
     nchunk = max(1, min(len(items), 16 * 8))
     chunks = [(runner, items[i::nchunk], 300000 if ctx.thorough else 70000) for i in range(nchunk)]
@@ -261,7 +276,8 @@ def search(ctx):
                 elif r["status"] == "violation":
                     ctx.prop_case(name, tok, nontrivial=True)
                     ctx.violation(_key(p, pb, r["what"]), "solve_%s: %s" % (name, r["what"]),
-                                  {"puzzle": name, "problem": pb, "expected": r.get("expected"), "observed": r.get("observed"),
+                                  {"puzzle": name, "problem": {k: v for k, v in pb.items() if k != "planted"} if isinstance(pb, dict) else pb,
+                                   "planted": pb.get("planted") if isinstance(pb, dict) else None, "expected": r.get("expected"), "observed": r.get("observed"),
                                    "admitted_but_breaking_rules": r.get("admitted_but_breaking_rules"),
                                    "obeying_rules_but_rejected": r.get("obeying_rules_but_rejected")})
                 elif r["status"] == "harness":
@@ -339,6 +355,13 @@ def replay(ctx, rp):
     translate(ctx)
     p = [q for q in ctx._plugs if q.NAME == v["puzzle"]][0]
     m = ctx.model("C11")
-    r = L.search_case(p, v["problem"], m)
+    pbv = v["problem"]
+    if isinstance(pbv, dict) and pbv.get("_big"):
+        pbv = dict(pbv)
+        if v.get("planted"):
+            pbv["planted"] = v["planted"]
+        r = L.big_case(p, pbv, m)
+    else:
+        r = L.search_case(p, pbv, m)
     print(r)
     return 1 if r["status"] == "violation" else 0
